@@ -27,7 +27,7 @@ import (
 
 func init() { checks["c06"] = checkC06 }
 
-var c06Events = []string{"write", "bigwrite", "shrink", "restart", "kill", "pause", "stall-shrink", "fshrink"}
+var c06Events = []string{"write", "bigwrite", "shrink", "restart", "kill", "pause", "stall-shrink", "fshrink", "oom"}
 
 type c06Run struct {
 	x        *Exec
@@ -68,7 +68,7 @@ func (r *c06Run) installMonitor() {
 		// a new connection dialed by the follower = a (re)connect to the leader
 		if n := len(vnet.All); n != r.seenConns {
 			for _, c := range vnet.All[r.seenConns:] {
-				if c.Owner == "F" {
+				if c.Owner == r.F.Name {
 					r.atConn = r.nWrites
 				}
 			}
@@ -247,9 +247,11 @@ func checkC06(job *Job, res *Result) {
 					viol("follow", "FOLLOW replied "+rep.String())
 					return
 				}
+				var revive func() bool
 				settle := func() bool {
 					for i := 0; i < 300; i++ {
 						vsched.Sleep(int64(100 * stdtime.Millisecond))
+						revive()
 						if followerCaughtUp(fc) {
 							vsched.Sleep(int64(300 * stdtime.Millisecond)) // leader quiescent, stream drained
 							vsched.Quiesce()
@@ -258,7 +260,32 @@ func checkC06(job *Job, res *Result) {
 					}
 					return false
 				}
+				reborn := 0
+				// a follower that cannot apply its leader's log under memory pressure may stop
+				// itself (log.Fatal): fail-stop, not divergence - the process is started again
+				revive = func() bool {
+					for i, cr := range vsched.Crashes {
+						if strings.Contains(cr.Value, "log.Fatal") && strings.Contains(cr.Value, "OOM command not allowed") {
+							vsched.Crashes = append(vsched.Crashes[:i:i], vsched.Crashes[i+1:]...)
+							vsched.Paused[r.F.Name] = true // the dead process: its threads never run again
+							for _, c := range vnet.All {
+								if c.Owner == r.F.Name && !c.Closed() {
+									c.Kill()
+								}
+							}
+							fc.c.Kill()
+							reborn++
+							r.F = x.Start(fmt.Sprintf("F%d", reborn), fdir, 9002+reborn, nil)
+							r.lastFlag = false
+							r.atConn = r.nWrites
+							fc = x.Dial(r.F.Addr)
+							return true
+						}
+					}
+					return false
+				}
 				for _, e := range seq {
+					revive()
 					switch c06Events[e] {
 					case "write":
 						r.write(false)
@@ -272,13 +299,13 @@ func checkC06(job *Job, res *Result) {
 					case "restart":
 						fc.Close()
 						r.F.StopProcess()
-						r.F = x.Start("F", fdir, 9002, nil)
+						r.F = x.Start(r.F.Name, fdir, r.F.Port, nil)
 						r.lastFlag = false
 						r.atConn = r.nWrites
 						fc = x.Dial(r.F.Addr)
 					case "kill":
 						for _, c := range vnet.All {
-							if c.Owner == "F" && !c.Closed() {
+							if c.Owner == r.F.Name && !c.Closed() {
 								c.Kill()
 							}
 						}
@@ -290,27 +317,37 @@ func checkC06(job *Job, res *Result) {
 						// then the follower continues
 						recvd := 0
 						vnet.OnAnyWrite = func(e *vnet.End, b []byte) {
-							if e.Server && e.Peer.Owner == "F" {
+							if e.Server && e.Peer.Owner == r.F.Name {
 								recvd += len(b)
 								if recvd > 100000 {
-									vsched.Paused["F"] = true
+									vsched.Paused[r.F.Name] = true
 								}
 							}
 						}
 						vsched.Sleep(int64(20 * stdtime.Millisecond))
 						vnet.OnAnyWrite = nil
-						vsched.Paused["F"] = true
+						vsched.Paused[r.F.Name] = true
 						r.write(false)
 						waitShrink(r.L, r.lc)
 						r.write(false)
 						vsched.Sleep(int64(300 * stdtime.Millisecond))
-						vsched.Paused["F"] = false
-					case "pause":
-						vsched.Paused["F"] = true
+						vsched.Paused[r.F.Name] = false
+					case "oom":
+						// the follower is over its maxmemory limit while the leader writes, then recovers
+						// (the flag is what the frozen memory watcher would set)
+						fc.Do("CONFIG", "SET", "maxmemory", "1")
+						r.F.S.outOfMemory.Store(true)
 						r.write(false)
 						r.write(false)
 						vsched.Sleep(int64(300 * stdtime.Millisecond))
-						vsched.Paused["F"] = false
+						r.F.S.outOfMemory.Store(false)
+						revive()
+					case "pause":
+						vsched.Paused[r.F.Name] = true
+						r.write(false)
+						r.write(false)
+						vsched.Sleep(int64(300 * stdtime.Millisecond))
+						vsched.Paused[r.F.Name] = false
 					}
 					// HEALTHZ may say OK only while SERVER says caught_up (asked right after the event,
 					// when the link may be down, and again a little later)
